@@ -110,7 +110,7 @@ def directed_known(prop, known):
 
 # ----------------------------------------------------------------------------- replay files
 def write_replay(prop, seed, tier, v, steps, note):
-    d = os.path.join(VERIF, "replays")
+    d = os.environ.get("VERIF_REPLAY_DIR") or os.path.join(VERIF, "replays")
     os.makedirs(d, exist_ok=True)
     safe = v["signature"].replace("/", "_").replace(" ", "")[:120]
     path = os.path.join(d, f"{prop}-{seed}-{v['run_index']}-{safe}.json")
@@ -305,7 +305,7 @@ def write_evidence(prop, tier, seed, level, agg, runs, wall_s, det, known_seen, 
         "assumptions": getattr(sc, "ASSUMPTIONS", []),
         "wall_s": round(wall_s, 2), "violations": len(new_viol),
     }
-    d = os.path.join(VERIF, "evidence")
+    d = os.environ.get("VERIF_EVIDENCE_DIR") or os.path.join(VERIF, "evidence")
     os.makedirs(d, exist_ok=True)
     tmp = os.path.join(d, f".{prop}.json.tmp")
     with open(tmp, "w", encoding="utf-8") as f:
